@@ -179,12 +179,35 @@ pub fn parse_fun_args(it: &mut LexIterator) -> ParseResult<Vec<AST>> {
     })?;
 
     it.eat(&Token::RRBrack, "function arguments")?;
+    check_parameters(&args)?;
     let varargs: Vec<&AST> =
         args.iter().filter(|arg| matches!(&arg.node, Node::FunArg { vararg: true, .. })).collect();
     if let Some(second) = varargs.get(1) {
         return Err(Box::from(custom("A function can have at most one vararg argument", second.pos)));
     }
     Ok(args)
+}
+
+/// Parameters of a function, class or anonymous function: each is one identifier and no identifier
+/// occurs twice.
+pub fn check_parameters(args: &[AST]) -> ParseResult<()> {
+    let mut names: Vec<&String> = vec![];
+    for arg in args {
+        let var = match &arg.node {
+            Node::FunArg { var, .. } | Node::VariableDef { var, .. } => var,
+            _ => continue,
+        };
+        let name = match &var.node {
+            Node::Id { lit } => lit,
+            _ => return Err(Box::from(custom("A parameter must be an identifier", var.pos))),
+        };
+        if names.contains(&name) {
+            let msg = format!("Parameter {name} is defined twice");
+            return Err(Box::from(custom(&msg, var.pos)));
+        }
+        names.push(name);
+    }
+    Ok(())
 }
 
 pub fn parse_fun_arg(it: &mut LexIterator) -> ParseResult {
